@@ -177,6 +177,30 @@ CLAIMED["C18"] = dict(
          "generator. Don't-care: NaN, bool*number, order of non-numeric values.",
     technique="TLA+ comparison spec over a landmark table; trace validation of recorded operator outcomes")
 
+NUM_NOTE = ("TLC has 32-bit integers and no floats: the specification reasons about order (ranks of landmarks vs type limits) and "
+            "shape (digits, magnitude) and applies bounds to errors that the harness MEASURES in quad precision (trusted: "
+            "libquadmath, strtoflt128). The landmark table and the literal shapes come from a generator that uses exact "
+            "rational arithmetic.")
+CLAIMED["C12"] = dict(
+    category="model_checking",
+    text="NumbersTrace.tla (Focus C12) decides from the shape of each literal what must happen (exact integer in "
+         "[-2^63, 2^64) with any leading zeros, finite within 1e-6 / 1e-13 by significant digits for magnitudes "
+         "1e-300..1e300, infinity / zero or right exponent outside) and applies the bound to the measured error, for "
+         "literals of up to thousands of digits parsed in documents and through as<T>() on strings; printing: float bit "
+         "patterns (quick strided, thorough all 2^32) within 1e-6*max(1,|x|), sampled doubles over all exponents within "
+         "1e-9*max(1,|x|).",
+    design_ref="DESIGN.md §4 C12", note=NUM_NOTE + " Known finding: double-stored-as-float.",
+    technique="TLA+ case analysis over literal shapes; trace validation of measured conversions")
+CLAIMED["C13"] = dict(
+    category="model_checking",
+    text="NumbersTrace.tla (Focus C13) decides for every landmark (within 2 and 1/2 of every power of two and type limit) "
+         "in every storage kind and every target type: as<T>() = truncation if in range else 0, is<T>() iff stored integer "
+         "that fits, agreement with wider types, v|default, nearest double/float; 32-bit storage kinds are swept (quick "
+         "strided, thorough all 2^32 per kind and target) with no value allowed to convert to anything but its "
+         "truncation or 0; copyArray with guard elements; UBSan float-cast-overflow on.",
+    design_ref="DESIGN.md §4 C13", note=NUM_NOTE,
+    technique="TLA+ case analysis over a landmark table; trace validation of recorded conversions; run-length sweeps")
+
 NOT_YET = {
 }
 
